@@ -48,5 +48,5 @@ def generate(rng, tier):
 LEVEL_TEXT = ('Kernel-checked theorems for EVERY libm and EVERY input: distance_to returns a number at angle exactly 0 (blade 0, remainder 0) whose magnitude is never NaN and never negative (repaired defect F4); '
               'mag_diff is fabs(fsub ..); invert_circle panics exactly when the computed offset p - c has zero magnitude. '
               'C13_radicand_value / C13_distance_value (S2, REAL pi and cos): for any libm with |cosF - cos| <= u on [-8,8] the computed radicand is the squared Euclidean distance D = |a|^2 + |b|^2 - 2|a||b|cos(dir b - dir a) within (|a|^2+|b|^2)(u + 1.0003e-10) + 10*2^-1075, and the returned distance is sqrt(D) up to the square root of that error plus one rounding. '
-              'Symmetry, = |a-b|, the triangle inequality and the inversion laws are decided against mpmath (S3, partial).')
+              'C13_symmetry: d(a,b) and d(b,a) agree within twice that tolerance. Equality with |a-b|, the triangle inequality and the inversion laws are decided against mpmath (S3, partial).')
 LEVEL_NOTE = ('Partial. Trusted: Coq kernel + vm_compute; 4 standard-library axioms; plus the primitive-integer axioms (PrimInt63.*, Uint63.*_spec) that the Interval tactic uses for the two bounds on the real pi in PiBounds.v (value theorems only); hand-written model validated bit-for-bit each run with the recorded libm table.')
